@@ -160,7 +160,7 @@ fn int21_0a(thorough: bool) -> Vec<Case> {
         (0xFFF0, 0x00F8, "capacity 5 ends at 0xFFFFF"),
         (0xFFFF, 0xFFFF, "header split across the offset wrap at the top segment"),
     ];
-    let caps: Vec<u32> = if thorough { vec![0, 1, 2, 3, 4, 5, 6, 7, 16, 254, 255] } else { vec![0, 1, 2, 5, 16, 255] };
+    let caps: Vec<u32> = if thorough { (0..=255).collect() } else { vec![0, 1, 2, 5, 16, 255] };
     for (ds, dx, pname) in places.iter() {
         for cap in caps.iter() {
             for (lines, raw, sname) in stdin_shapes(*cap as usize) {
@@ -233,7 +233,7 @@ fn int21_0a_utf8() -> Vec<Case> {
 fn int10_0a(thorough: bool) -> Vec<Case> {
     let mut v = Vec::new();
     let als: Vec<u32> = if thorough { (0..256).collect() } else { vec![0x41, 0x00, 0x0A, 0x20, 0x7F, 0x80, 0xE9, 0xFF, 0x09, 0x0D] };
-    let cxs: Vec<u32> = if thorough { vec![0, 1, 2, 5, 80, 300, 4096, 0xFFFF] } else { vec![0, 1, 2, 5, 300, 4096] };
+    let cxs: Vec<u32> = if thorough { vec![0, 1, 2, 3, 5, 79, 80, 81, 255, 256, 300, 4096, 0x7FFF, 0x8000, 0xFFFF] } else { vec![0, 1, 2, 5, 300, 4096] };
     for al in als.iter() {
         for cx in cxs.iter() {
             let mut code = vec![label("start")];
@@ -251,8 +251,8 @@ fn int10_0a(thorough: bool) -> Vec<Case> {
 
 fn int10_13(thorough: bool) -> Vec<Case> {
     let mut v = Vec::new();
-    let dls: Vec<u32> = if thorough { vec![0, 1, 2, 5, 79, 254, 255] } else { vec![0, 1, 5, 79, 255] };
-    let cxs: Vec<u32> = if thorough { vec![0, 1, 4, 5, 13, 39, 300, 4096] } else { vec![0, 1, 5, 13, 39, 300] };
+    let dls: Vec<u32> = if thorough { (0..=255).collect() } else { vec![0, 1, 5, 79, 255] };
+    let cxs: Vec<u32> = if thorough { vec![0, 1, 2, 4, 5, 13, 39, 255, 256, 300, 4096, 65535] } else { vec![0, 1, 5, 13, 39, 300] };
     let places: Vec<(u16, u16, &str)> = vec![
         (0x0020, 0x0000, "text at 0x200"),
         (0x0000, 0x0200, "same text through ES=0"),
@@ -312,7 +312,7 @@ fn unsupported() -> Vec<Case> {
 }
 
 /// histories: every ordered pair of services in one program, sharing one stdin
-fn pairs() -> Vec<Case> {
+fn pairs(thorough: bool) -> Vec<Case> {
     let mut v = Vec::new();
     // each service as a code fragment using the buffer at DS:0x0300 (DS=0)
     let frag = |k: usize, code: &mut Vec<Item>| match k {
@@ -352,6 +352,31 @@ fn pairs() -> Vec<Case> {
         (vec!["only".into()], "only\n".into()),
         (vec![], "".into()),
     ];
+    if thorough {
+        // histories of three services (all 125 ordered triples), a third input line available
+        let mut st3 = stdins.clone();
+        st3.push((vec!["one".into(), "two".into(), "three".into()], "one\ntwo\nthree\n".into()));
+        for a in 0..5 {
+            for b in 0..5 {
+                for c3 in 0..5 {
+                    for (lines, raw) in st3.iter() {
+                        let mut code = vec![label("start")];
+                        frag(a, &mut code);
+                        code.push(print(PrintKind::Reg));
+                        frag(b, &mut code);
+                        code.push(print(PrintKind::Reg));
+                        frag(c3, &mut code);
+                        let mut w = BTreeSet::new();
+                        for k in 0x02F8..0x0310u32 {
+                            w.insert(k);
+                        }
+                        epilogue(&mut code, &w);
+                        v.push(Case { site: "service triple".into(), prog: Program { data: base_data(), code }, stdin_lines: lines.clone(), stdin_raw: raw.clone(), note: format!("{} then {} then {}", names[a], names[b], names[c3]) });
+                    }
+                }
+            }
+        }
+    }
     for a in 0..5 {
         for b in 0..5 {
             for (lines, raw) in stdins.iter() {
@@ -390,7 +415,7 @@ pub fn run(tier: &Tier) -> i32 {
     add("int10_0a", int10_0a(tier.thorough), &mut cases, &mut groups);
     add("int10_13", int10_13(tier.thorough), &mut cases, &mut groups);
     add("unsupported_ah", unsupported(), &mut cases, &mut groups);
-    add("service_pairs", pairs(), &mut cases, &mut groups);
+    add("service_pairs", pairs(tier.thorough), &mut cases, &mut groups);
     let mb: HashMap<String, Vec<Item>> = HashMap::new();
     let out_bytes = AtomicU64::new(0);
     let unsup = AtomicU64::new(0);
@@ -443,7 +468,7 @@ pub fn run(tier: &Tier) -> i32 {
     }
     let mut cov = Coverage::default();
     cov.exhaustive = true;
-    cov.rule = "every run is the real binary with a scripted stdin (pipe closed after the script). INT 21h/02: all 256 DL values x 2 prior AL. INT 21h/01: 10 stdin shapes (closed, empty line, short, exactly capacity, longer, no trailing newline, two lines, 300 characters, UTF-8) x 2 prior AL, followed by a second read and an echo. INT 21h/0Ah: 5 buffer placements (low, offset wrap at 16 bits, crossing 2^20, ending exactly at 0xFFFFF, header split by the wrap) x capacities {0,1,2,5,16,255} (thorough: 11 values) x the 9 stdin shapes, the buffer surrounded by 0xEE markers; plus a line of 1-, 2-, 3- and 4-byte characters cut by every capacity 0..length+1 (the cut falls inside a character). INT 10h/0Ah: AL x CX lattice (thorough up to CX=65535). INT 10h/13h: 6 (ES,BP) placements incl. text whose high bytes form well-formed UTF-8, strings crossing 2^20 and BP+i wrapping at 16 bits x DL x CX. Every AH value 0..255 other than the supported ones for both interrupts, at the first / a middle / the last line. All 25 ordered pairs of services x 3 stdin scripts. After each service the program prints all registers, the flags, the marker window around the buffer, the first 48 and the last 48 bytes of memory; service output is matched byte for byte and every printed field against the reference state".into();
+    cov.rule = "every run is the real binary with a scripted stdin (pipe closed after the script). INT 21h/02: all 256 DL values x 2 prior AL. INT 21h/01: 10 stdin shapes (closed, empty line, short, exactly capacity, longer, no trailing newline, two lines, 300 characters, UTF-8) x 2 prior AL, followed by a second read and an echo. INT 21h/0Ah: 5 buffer placements (low, offset wrap at 16 bits, crossing 2^20, ending exactly at 0xFFFFF, header split by the wrap) x capacities {0,1,2,5,16,255} (thorough: all 256) x the 9 stdin shapes, the buffer surrounded by 0xEE markers; plus a line of 1-, 2-, 3- and 4-byte characters cut by every capacity 0..length+1 (the cut falls inside a character). INT 10h/0Ah: AL x CX lattice (thorough: all 256 AL x 15 CX up to 65535). INT 10h/13h: 6 (ES,BP) placements incl. text whose high bytes form well-formed UTF-8, strings crossing 2^20 and BP+i wrapping at 16 bits x DL x CX (thorough: all 256 DL x 12 CX up to 65535). Every AH value 0..255 other than the supported ones for both interrupts, at the first / a middle / the last line. All 25 ordered pairs of services x 3 stdin scripts (thorough: all 125 ordered triples x 4 scripts). After each service the program prints all registers, the flags, the marker window around the buffer, the first 48 and the last 48 bytes of memory; service output is matched byte for byte and every printed field against the reference state".into();
     cov.bounds = json!({"groups": groups.iter().map(|(n, k)| json!({"group": n, "runs": k})).collect::<Vec<_>>(), "service_output_bytes_matched": out_bytes.load(Ordering::Relaxed), "unsupported_reports_checked": unsup.load(Ordering::Relaxed), "cases_conforming_only_in_dos_encoding": dos_mode_used.load(Ordering::Relaxed), "tier": tier.name()});
     cov.assumptions = common_assumptions();
     cov.assumptions.push("characters >= 0x80 may be written as the raw byte or as the UTF-8 encoding of the same code point".into());
